@@ -140,6 +140,7 @@ def monitor(spec, res, acc, complete=True):
         and "Tupp" in cat and "Tbase" in cat and getattr(res, "kw", None) is not None
     wl = base.weather_lookup(res.kw) if thermal_ref else None
     ref_cum = 0.0
+    mat_checked = set()
     for s in tr.steps:
         t = s["t"]
         cov["steps"] += 1
@@ -210,6 +211,16 @@ def monitor(spec, res, acc, complete=True):
             cr = tr.season_crop.get(sc, {})
             cal = int(cr.get("CalendarType", 0))
             mat = float(cr.get("Maturity", np.inf))
+            mkey = "MaturityCD" if cal == 1 else "Maturity"
+            if float(cat.get(mkey, -9)) > 0 and int(cat.get("SwitchGDD", 0)) != 1 and int(cat.get("CalendarType", 0)) == cal \
+                    and sc not in mat_checked:
+                # the threshold itself is configuration (catalogue + keywords), in every season
+                mat_checked.add(sc)
+                cov["maturity_threshold_checks"] += 1
+                if abs(mat - float(cat[mkey])) > 1e-9:
+                    acc.add("maturity-threshold", f"season {sc}: the crop matures at {mat!r} "
+                            f"({'days' if cal == 1 else 'degree days'}), configured {float(cat[mkey])!r}",
+                            dict(season=sc, model=mat, configured=float(cat[mkey])))
             matured = (cal == 1 and s["dap"] >= mat) or (cal == 2 and s["gdd_cum"] >= mat)
             if s["mature"] != matured:
                 acc.add("maturity-flag", f"step {t}: crop_mature={s['mature']} but dap={s['dap']}, "
